@@ -48,7 +48,12 @@ MANIFEST = {
             "certain; leading letter in 2.1: what the library and the 2.1 schema demand). `custom types inherit`: proved is that the "
             "builder's table satisfies what the generic schema theorems ask of a class table (well-formedness, "
             "world_refines for the extended world) and that it is the live class; the instantiated end-to-end "
-            "C01/C02/C05 statements are not assembled here (the oracle exercises them on registered types). Regex running time is outside the model (measured with a time "
+            "C02 statement is assembled in Props/C19InheritC02.v modulo the schema family's coverage predicate. "
+            "Props/C19.v depends only on the schema family's TYPES (Model/SchemaTypes.v); Props/C19Inherit.v and "
+            "Props/C19InheritC02.v depend on the schema family's files (Spec/SchemaRefine.v, Spec/StixValid.v, "
+            "Gen/Tables.v, Gen/SpecTables.v, Proofs/Schema*.v): when one of THOSE does not compile the two files are "
+            "not attempted-and-claimed (a note and coverage.inherit_tables say so; obligations then count only what "
+            "was built), when a C19 file fails it is a broken obligation. Regex running time is outside the model (measured with a time "
             "limit). No axioms.",
     "technique": "Coq proof over a hand-written executable model + translator for regex texts/built-in registry "
                  "+ fresh-interpreter correspondence of registration histories",
@@ -333,7 +338,10 @@ def gen_guarantee(run, idx):
             props.append([pn, pk] + ([True] if pk != "int" and rng.random() < 0.4 else []))
         if not props:
             props = [["prop1", "plain", True]]
-        regs.append({"op": "reg", "kind": kind, "ver": ver, "name": name, "props": props, "cls": "G%d" % j})
+        op = {"op": "reg", "kind": kind, "ver": ver, "name": name, "props": props, "cls": "G%d" % j}
+        if kind in ("object", "observable") and ver == "2.1" and rng.random() < 0.35:
+            op["extname"] = EXTDEF + new_uuid(rng)
+        regs.append(op)
     return {"k": "guarantee", "id": idx, "regs": regs}
 
 
@@ -542,6 +550,11 @@ def oracle_guarantee(case, res):
         if r.get("roundtrip_equal") is not True or r.get("roundtrip_text_equal") is not True or r.get("values_kept") is not True:
             viol("registered type %s does not round-trip (equal=%s text=%s values=%s)"
                  % (tag, r.get("roundtrip_equal"), r.get("roundtrip_text_equal"), r.get("values_kept")), r)
+        si = r.get("side_instance")
+        if si is not None:
+            want_type = "new-sco" if r.get("kind") == "observable" else "new-sdo"
+            if not si.get("registered") or si.get("found") != si.get("registered") or si.get("extension_type") != want_type:
+                viol("instance of %s registered with extension_name= does not carry the side extension: %s" % (tag, si), r)
         for p, st in (r.get("missing") or {}).items():
             if st == "ok":
                 viol("registered type %s accepted without its required property %r" % (tag, p), r)
@@ -951,6 +964,8 @@ def check(run):
                         run.coverage.setdefault("inherit_tables", {})[pf] = "built"
                     else:
                         run.coverage.setdefault("inherit_tables", {})[pf] = "not built: %s" % (fa[0] if fa else res2["log_tail"][-300:])
+                        run.coverage.setdefault("not_claimed", []).append(
+                            "%s (%d theorems): a file of the schema family did not compile" % (pf, res2["obligations"]))
                         run.notes.append("%s not built (a file of the schema family did not compile): %s" % (pf, res2["log_tail"][-600:]))
             except Exception as e:  # noqa: BLE001 -- tr_tables belongs to the schema family; its abort is reported there
                 run.coverage["inherit_tables"] = "not built: tr_tables: %s" % e
